@@ -23,7 +23,8 @@ Definition res_matches (m : bytes + derr) (obs_auth : bytes) (e : obs_err) : boo
 
 Definition wire_eqb (a b : wire_request) : bool :=
   bytes_eqb (w_method a) (w_method b) && bytes_eqb (w_uri a) (w_uri b) &&
-  opt_bytes_eqb (w_auth a) (w_auth b) && bytes_eqb (w_body a) (w_body b).
+  opt_bytes_eqb (w_auth a) (w_auth b) && bytes_eqb (w_ctype a) (w_ctype b) &&
+  bytes_eqb (w_body a) (w_body b).
 
 Inductive c20_case :=
 (* util.BasicAuthHeaderValue on (user, pass); header received by the origin (or the direct
@@ -36,6 +37,13 @@ Inductive c20_case :=
 (* createDigestAuth through the hook *)
 | DigestCase (t : hash_table) (chal uri method user pass cnonce obs_auth : bytes) (e : obs_err)
 | ParseCase (chal : bytes) (obs : option (list bytes)) (e : obs_err)
+(* digest.go escapeQuoted / unquoteParam through the hook *)
+| QuoteCase (s obs_escaped : bytes) (v obs_unquoted : bytes)
+(* a (possibly damaged) Authorization header given to the harness's RFC 7616 verifier (Go,
+   independent of /repo) and to the model's rfc7616_accepts: same verdict; [strict_only]:
+   the Go verifier tolerates a deviation the exact-match verifier of the model does not
+   (then only "model accepts => Go accepts" is required) *)
+| VerifyCase (t : hash_table) (chal uri method user pass hint hdr : bytes) (go_accepts strict_only : bool)
 (* one call through a real client against the scripted origin *)
 | ExchangeCase (t : hash_table) (replayable : bool) (first : wire_request) (status : N) (chal rbody user pass cnonce : bytes)
                (obs_wire : list wire_request) (e : obs_err).
@@ -62,6 +70,14 @@ Definition c20_check (c : c20_case) : bool :=
       | inl c, Some fs, ONone => list_eqb bytes_eqb (chal_fields c) fs
       | inr x, None, ODigest y => derr_eqb x y
       | _, _, _ => false
+      end
+  | QuoteCase s e v u => bytes_eqb (escape_quoted s) e && bytes_eqb (unquote_param v) u
+  | VerifyCase t chal uri method user pass hint hdr go strict_only =>
+      match parse_challenge chal with
+      | inl c =>
+          let m := rfc7616_accepts (H_tab t) c uri method user pass hint hdr in
+          if strict_only then implb m go else Bool.eqb m go
+      | inr _ => false
       end
   | ExchangeCase t rp first status chal rbody user pass cnonce obs e =>
       let rsp := mkResp false status chal rbody in
